@@ -149,7 +149,7 @@ fn tilejson_case(rt: &tokio::runtime::Runtime, dir: &Path, case: &Value, n: usiz
 	}
 	let p = path.to_str().unwrap().to_string();
 	let mut ev = json!({"ev":"tilejson","id":n,"fmt":fmt,"doc":d,"cov_minzoom":cmin,"cov_maxzoom":cmax,"doc_rest":doc_rest,
-		"doc_minzoom":dmin,"doc_maxzoom":dmax,"ok":0,"out_rest":{"t":"z","v":0},"out_minzoom":-1,"out_maxzoom":-1,"bounds_rel":"none"});
+		"doc_minzoom":dmin,"doc_maxzoom":dmax,"ok":0,"out_rest":{"t":"z","v":0},"out_minzoom":-1,"out_maxzoom":-1,"doc_bounds_e6":[],"out_bounds_e6":[],"out_has_bounds":0});
 	let w = catch(|| rt.block_on(write_to_filename(&mut mem, &p)));
 	if matches!(w, Ok(Ok(()))) {
 		if let Ok(Ok(reader)) = catch(|| rt.block_on(get_reader(&p))) {
@@ -159,14 +159,11 @@ fn tilejson_case(rt: &tokio::runtime::Runtime, dir: &Path, case: &Value, n: usiz
 				ev["out_minzoom"] = json!(o.get("minzoom").and_then(|v| v.as_i64()).unwrap_or(-1));
 				ev["out_maxzoom"] = json!(o.get("maxzoom").and_then(|v| v.as_i64()).unwrap_or(-1));
 				let ob: Option<Vec<f64>> = o.get("bounds").and_then(|b| b.as_array()).map(|a| a.iter().map(|x| x.as_f64().unwrap_or(f64::NAN)).collect());
-				ev["bounds_rel"] = json!(match (d["bounds"] == 1, &ob) {
-					(false, None) => "none",
-					(false, Some(_)) => "added",
-					(true, None) => "dropped",
-					(true, Some(b)) if b.len() == 4 && b[..] == doc_bounds[..] => "equal",
-					(true, Some(b)) if b.len() == 4 && b[0] >= doc_bounds[0] && b[1] >= doc_bounds[1] && b[2] <= doc_bounds[2] && b[3] <= doc_bounds[3] && b[0] <= b[2] && b[1] <= b[3] => "inside",
-					_ => "outside",
-				});
+				// observations: the document's bounds (if it had any) and the bounds read back, in millionths of a degree
+				let e6 = |b: &[f64]| b.iter().map(|v| (v * 1e6).round().clamp(-2e9, 2e9) as i64).collect::<Vec<_>>();
+				ev["doc_bounds_e6"] = if d["bounds"] == 1 { json!(e6(&doc_bounds)) } else { json!([]) };
+				ev["out_bounds_e6"] = match &ob { Some(b) => json!(e6(b)), None => json!([]) };
+				ev["out_has_bounds"] = json!(ob.is_some() as u8);
 				let mut rest_out = o.clone();
 				for k in ["minzoom", "maxzoom", "bounds"] {
 					rest_out.remove(k);
